@@ -550,3 +550,24 @@ func ZZ_C21_illegal() {
 		pld: &payload.SidechainIllegalData{IllegalSigner: p.info.NodePublicKey}}
 	zzDposApplyAndRollback(s, []interfaces.Transaction{tx})
 }
+
+// ZZ_C21_emergency: an InactiveArbitrators (emergency) transaction naming one
+// arbiter whose producer is active or already inactive (with arbitrary
+// penalty, selection flag, inactive-since height and, when inactive, possibly a
+// pending activation request).
+func ZZ_C21_emergency() {
+	s := zzDposState()
+	s.ChainParams.DPoSConfiguration.EmergencyInactivePenalty = 50000000000
+	st := []ProducerState{Active, Inactive}[nd.Choose("state", 2)]
+	p := zzDposProducer(s, 0, st, DPoSV1, 0)
+	p.selected = nd.Bool("selected")
+	if st == Inactive {
+		p.inactiveSince = zzDH - 20
+		if nd.Bool("activationRequested") {
+			p.activateRequestHeight = zzDH - 2
+		}
+	}
+	tx := &zzStTx{typ: common2.InactiveArbitrators, id: common.Uint256{0x21, 0x50},
+		pld: &payload.InactiveArbitrators{Arbitrators: [][]byte{p.info.NodePublicKey}}}
+	zzDposApplyAndRollback(s, []interfaces.Transaction{tx})
+}
